@@ -129,10 +129,18 @@ pub fn all() -> Vec<Prop> {
         Prop {
             id: "C15",
             level: "exploration",
-            rule: "limiter half (E3): one evaluation = 1-6 client tasks doing acquire(n)/hold/drop/cancel on the real Limiter under a seeded schedule with director-controlled clock advances; oracles: token-bucket bound over every pair of grants, arrival-order service, no leak after cancellations, nothing above burst granted; non-trivial = at least two grants; distinct = distinct event-log fingerprint",
-            batches: |t| prim_batches("limiter", 3000, 200_000, t),
-            expected_probes: || vec![],
-            components: prim_components,
+            rule: "per-RPC-stream half (E2): a real rpc::Service server (real ping server; consensus server with a harness handler that holds requests) over a SimPipe against the real client or a greedy raw-mux client announcing more streams than allowed with no rate limit of its own; OPEN frames read off the server's wire with simulated timestamps and handler starts must obey burst + T/refresh + 1 per window, concurrent handlers <= INFLIGHT. Limiter half (E3): one evaluation = 1-6 client tasks doing acquire(n)/hold/drop/cancel on the real Limiter under a seeded schedule with director-controlled clock advances; oracles: token-bucket bound over every pair of grants, arrival-order service, no leak after cancellations, nothing above burst granted; non-trivial = at least two grants; distinct = distinct event-log fingerprint",
+            batches: |t| {
+                let mut b = prim_batches("limiter", 3000, 200_000, t);
+                b.push(Batch { engine: "pipe", mode: "rpc", runs: if t == "thorough" { 40_000 } else { 1000 } });
+                b
+            },
+            expected_probes: || vec!["several_handler_starts", "ping_rate_limited"],
+            components: || json!({
+                "real": ["concurrency::limiter", "network::rpc::Service / Server / Client, ping server, mux, frame (via hook H4)", "tokio sync primitives"],
+                "stub": ["transport (SimPipe)", "consensus request handler (holds requests like a replica withholding acks)", "greedy client (raw mux + scripted workers)", "clock (ManualClock advanced by the director)", "scheduler choice"],
+                "absent": ["noise, TCP, handshakes"]
+            }),
             assumptions: prim_assumptions,
         },
         Prop {
